@@ -7,6 +7,8 @@ import (
 	"encoding/base64"
 	"encoding/binary"
 	"fmt"
+	"github.com/gobwas/ws"
+	"github.com/gobwas/ws/wsutil"
 	"io"
 	"math/rand"
 	"net/http"
@@ -424,6 +426,8 @@ type c13env struct {
 	pstd *svc.Std
 	pmux *larking.Mux
 	pcc  *grpc.ClientConn
+	// listener addresses for the WebSocket lanes
+	addr, paddr string
 }
 
 func slowBody(b []byte, lr *rand.Rand) io.Reader {
@@ -939,7 +943,70 @@ func duplexOver(cc *grpc.ClientConn, full string, id string, size int, lr *rand.
 	return ""
 }
 
+// wsDuplex drives the WebSocket binding of Bidi (chat-style handler): a
+// writer goroutine sends text frames while the echoes are read.
+func wsDuplex(addr, prefix, id string, size int, lr *rand.Rand) string {
+	id = "dup-" + id
+	if size > 48000 {
+		size = 48000
+	}
+	ctx, cancel := context.WithTimeout(context.Background(), 30*time.Second)
+	defer cancel()
+	conn, err := wire.WSDial(ctx, "ws://"+addr+prefix+"/ws/"+id, nil)
+	if err != nil {
+		return "websocket dial: " + err.Error()
+	}
+	defer conn.Close()
+	conn.SetDeadline(time.Now().Add(30 * time.Second))
+	k := 4 + lr.Intn(10)
+	szOf := func(i int) int {
+		if i%2 == 1 {
+			return 3 + i
+		}
+		return size / k
+	}
+	sendErr := make(chan error, 1)
+	go func() {
+		for i := 0; i < k; i++ {
+			b, _ := protojson.Marshal(mkChunk(id, int32(i), prf(fmt.Sprintf("%s/%d", id, i), szOf(i))))
+			if err := wsutil.WriteClientText(conn, b); err != nil {
+				sendErr <- err
+				return
+			}
+		}
+		sendErr <- nil
+	}()
+	for i := 0; i < k; i++ {
+		msg, err := wsutil.ReadServerText(conn)
+		if err != nil {
+			if ne, ok := err.(interface{ Timeout() bool }); ok && ne.Timeout() {
+				return "WEDGED"
+			}
+			return fmt.Sprintf("websocket read %d/%d: %v", i, k, err)
+		}
+		out := vschema.NewMsg(vschema.Msg("vf.Chunk"))
+		if err := protojson.Unmarshal(msg, out); err != nil {
+			return fmt.Sprintf("websocket echo %d is not a JSON chunk: %v (%.80q)", i, err, msg)
+		}
+		gid, gseq, gdata := chunkFields(out)
+		if gid != id || int(gseq) != i || !bytes.Equal(gdata, prf(fmt.Sprintf("%s/%d", id, i), szOf(i))) {
+			return fmt.Sprintf("websocket echo %d is not a function of the request: got id=%s seq=%d len=%d", i, gid, gseq, len(gdata))
+		}
+	}
+	if err := <-sendErr; err != nil {
+		return "websocket write: " + err.Error()
+	}
+	wsutil.WriteClientMessage(conn, ws.OpClose, ws.NewCloseFrameBody(ws.StatusNormalClosure, ""))
+	return ""
+}
+
 var proxyLanes = []lane{
+	{"proxy/ws-duplex", func(e *c13env, id string, size int, lr *rand.Rand) string {
+		return wsDuplex(e.paddr, "/p1", id, size, lr)
+	}},
+	{"socket/ws-duplex", func(e *c13env, id string, size int, lr *rand.Rand) string {
+		return wsDuplex(e.addr, "/v1", id, size, lr)
+	}},
 	{"proxy/grpc-bidi-duplex", func(e *c13env, id string, size int, lr *rand.Rand) string {
 		return duplexOver(e.pcc, e.pstd.Full("Bidi"), id, size, lr, false)
 	}},
@@ -1096,7 +1163,7 @@ func RunC13(r *mon.Run) {
 		return
 	}
 	defer cc.Close()
-	env := &c13env{std: std, mux: mux, srv: srv, cc: cc, m: m}
+	env := &c13env{std: std, mux: mux, srv: srv, cc: cc, m: m, addr: srv.Addr}
 	allLanes := append([]lane(nil), lanes...)
 	if pstd, err := svc.BuildStd("vf.stdp", "vf/std13p.proto", "/p1"); err != nil {
 		r.Inconclusive("harness: " + err.Error())
@@ -1145,7 +1212,7 @@ func RunC13(r *mon.Run) {
 			return
 		}
 		defer pcc.Close()
-		env.pstd, env.pmux, env.pcc = pstd, pmux, pcc
+		env.pstd, env.pmux, env.pcc, env.paddr = pstd, pmux, pcc, psrv.Addr
 		allLanes = append(allLanes, proxyLanes...)
 		defer func() {
 			if l := psrv.ErrLog(); strings.Contains(l, "panic serving") {
